@@ -1,17 +1,19 @@
 #!/bin/sh
-# usage: tools/confirm_seed.sh <worktree dir>    confirms a seeded change in a scratch worktree:
+# usage: tools/confirm_seed.sh <worktree dir>    confirms a seeded change in a scratch worktree, driven by
+# the saved patch (mutation.diff), without git stash (the stash is shared between worktrees):
 #  1. the whole existing suite passes with the change (demo moved aside)
 #  2. the demo fails with the change   3. the demo passes without it
 W=$1
 cd $W || exit 3
 export CARGO_NET_OFFLINE=true
-[ -s mutation.diff ] || { echo "NO PATCH"; exit 3; }
+[ -s mutation.diff ] || { echo "$(basename $W): NO PATCH"; exit 3; }
+git checkout -q -- src && git apply mutation.diff || { echo "$(basename $W): PATCH DOES NOT APPLY"; exit 3; }
 mv tests/seeded_demo.rs /tmp/$(basename $W)_demo.rs
 cargo test --workspace --offline --no-fail-fast > suite.log 2>&1; S=$?
 mv /tmp/$(basename $W)_demo.rs tests/seeded_demo.rs
 cargo test --offline --test seeded_demo > demo_with.log 2>&1; D1=$?
-git stash push -q -- src
+git checkout -q -- src
 cargo test --offline --test seeded_demo > demo_without.log 2>&1; D2=$?
-git stash pop -q
+git apply mutation.diff
 echo "$(basename $W): suite_with_change_exit=$S demo_with_change_exit=$D1 demo_without_change_exit=$D2  ($(grep -c '^test result: ok' suite.log) ok result lines, $(grep -c 'FAILED' suite.log) FAILED)"
 rm -rf target
